@@ -529,3 +529,31 @@ pub fn run_check(check: &dyn Check, tier: Tier, exe: &str) -> RunOutcome {
     }
     RunOutcome { exit: 0 }
 }
+
+/// Replay for checks whose violations are lattice points or whole trees: re-run the recorded
+/// work item in the recorded tier and look for a finding with the same signature (and, when
+/// present, the same configuration).
+pub fn replay_by_item(check: &dyn Check, replay: &Value) -> Result<(bool, String), String> {
+    let tier = Tier::parse(replay["tier"].as_str().unwrap_or("quick")).unwrap_or(Tier::Quick);
+    let idx = replay["item"].as_u64().ok_or("replay file has no item index")? as usize;
+    if idx >= check.n_items(tier) {
+        return Err("item index out of range".into());
+    }
+    let mut log = String::new();
+    let mut bad = false;
+    let v = check.run_item(tier, idx, None)?;
+    for f in v["found"].as_array().cloned().unwrap_or_default() {
+        if f["sig"] == replay["signature"] && (replay["cfg"].is_null() || f["cfg"] == replay["cfg"]) {
+            bad = true;
+            log.push_str(&format!(
+                "    VIOLATES {} [{}] {} {} | {}\n",
+                check.id(),
+                f["sig"].as_str().unwrap_or(""),
+                f["history"].as_str().unwrap_or(""),
+                f["point"].as_str().unwrap_or(""),
+                f["detail"].as_str().unwrap_or("")
+            ));
+        }
+    }
+    Ok((bad, log))
+}
